@@ -83,7 +83,10 @@ class LtlAstParserVisitor(LtlParserVisitor):
                         if (not isinstance(value, (int, float))):
                             raise RTAMTException(
                                 'The field {0} of the variable {1} is not of type int or float'.format(id, id_head))
-                    except AttributeError as err:
+                    except RTAMTException:
+                        raise
+                    except Exception as err:
+                        # (no such field, or a property that raises)
                         raise RTAMTException(err)
             except KeyError:
                 if id_tail:
@@ -392,7 +395,10 @@ class LtlAstParserVisitor(LtlParserVisitor):
                     if (not isinstance(value, (int, float))):
                         raise RTAMTException(
                             'The field {0} of the variable {1} is not of type int or float'.format(id, id_head))
-                except AttributeError as err:
+                except RTAMTException:
+                    raise
+                except Exception as err:
+                    # (no such field, or a property that raises)
                     raise RTAMTException(err)
         except KeyError:
             if id_tail:
